@@ -2,6 +2,7 @@ package main
 
 import (
 	"fmt"
+	"go/token"
 	"go/types"
 	"sort"
 	"strings"
@@ -583,6 +584,142 @@ func isCancelPoint(p *Path) bool {
 	return false
 }
 
+// countingLoop: `for i := a; i < n; i += k` with k a positive constant on every
+// back edge and n fixed before the loop (a constant, a value computed outside
+// the loop, or the length of such a value): it ends after finitely many rounds.
+func countingLoop(hdr *ssa.BasicBlock, body map[*ssa.BasicBlock]bool) bool {
+	if len(hdr.Instrs) == 0 {
+		return false
+	}
+	iff, ok := hdr.Instrs[len(hdr.Instrs)-1].(*ssa.If)
+	if !ok {
+		return false
+	}
+	cmp, ok := iff.Cond.(*ssa.BinOp)
+	if !ok || cmp.Op != token.LSS && cmp.Op != token.LEQ {
+		return false
+	}
+	phi, ok := cmp.X.(*ssa.Phi)
+	if !ok || phi.Block() != hdr {
+		return false
+	}
+	// the true edge stays in the loop, the false edge leaves it
+	if !body[hdr.Succs[0]] || body[hdr.Succs[1]] {
+		return false
+	}
+	for i, e := range phi.Edges {
+		if !body[hdr.Preds[i]] {
+			continue
+		}
+		add, ok := e.(*ssa.BinOp)
+		if !ok || add.Op != token.ADD || add.X != ssa.Value(phi) {
+			return false
+		}
+		k, ok := add.Y.(*ssa.Const)
+		if !ok || k.Value == nil || k.Int64() <= 0 {
+			return false
+		}
+	}
+	var outside func(v ssa.Value, d int) bool
+	outside = func(v ssa.Value, d int) bool {
+		switch x := v.(type) {
+		case *ssa.Const, *ssa.Parameter, *ssa.FreeVar:
+			return true
+		case *ssa.Call:
+			if b, ok := x.Call.Value.(*ssa.Builtin); ok && b.Name() == "len" && d < 2 {
+				return outside(x.Call.Args[0], d+1)
+			}
+		}
+		if in, ok := v.(ssa.Instruction); ok && in.Block() != nil && !body[in.Block()] {
+			return true
+		}
+		// a local variable kept in memory (captured by a closure) that nothing
+		// assigns inside the loop
+		if ld, ok := v.(*ssa.UnOp); ok && ld.Op == token.MUL && d < 2 {
+			if al, ok := ld.X.(*ssa.Alloc); ok {
+				return !assignedIn(al, body)
+			}
+		}
+		return false
+	}
+	return outside(cmp.Y, 0)
+}
+
+// assignedIn: may the local variable al be assigned while control is inside
+// body? Stores in the loop, stores by any closure capturing it, and any escape
+// of its address count.
+func assignedIn(al *ssa.Alloc, body map[*ssa.BasicBlock]bool) bool {
+	if al.Referrers() == nil {
+		return true
+	}
+	for _, r := range *al.Referrers() {
+		switch x := r.(type) {
+		case *ssa.Store:
+			if x.Addr != ssa.Value(al) || body[x.Block()] {
+				return true
+			}
+		case *ssa.UnOp:
+			if x.Op != token.MUL {
+				return true
+			}
+		case *ssa.MakeClosure:
+			cf, _ := x.Fn.(*ssa.Function)
+			if cf == nil {
+				return true
+			}
+			// a closure made before the loop and only handed to calls made
+			// before the loop has run by the time the loop starts (callbacks
+			// are invoked by their callee, not kept for later)
+			if !body[x.Block()] && x.Referrers() != nil {
+				early := true
+				var uses func(v ssa.Value, d int)
+				uses = func(v ssa.Value, d int) {
+					if v.Referrers() == nil || d > 2 {
+						early = false
+						return
+					}
+					for _, cr := range *v.Referrers() {
+						switch y := cr.(type) {
+						case *ssa.Call:
+							if body[y.Block()] {
+								early = false
+							}
+						case *ssa.ChangeType:
+							uses(y, d+1)
+						case *ssa.DebugRef:
+						default:
+							early = false
+						}
+					}
+				}
+				uses(x, 0)
+				if early {
+					continue
+				}
+			}
+			for i, bnd := range x.Bindings {
+				if bnd != ssa.Value(al) {
+					continue
+				}
+				fv := cf.FreeVars[i]
+				if fv.Referrers() == nil {
+					continue
+				}
+				for _, fr := range *fv.Referrers() {
+					if ld, ok := fr.(*ssa.UnOp); ok && ld.Op == token.MUL {
+						continue
+					}
+					return true
+				}
+			}
+		case *ssa.DebugRef:
+		default:
+			return true
+		}
+	}
+	return false
+}
+
 func ruleCancellableLoops(c *Check, rule string) {
 	nLoops, bad := 0, 0
 	for _, name := range goroutineBodies {
@@ -608,7 +745,7 @@ func ruleCancellableLoops(c *Check, rule string) {
 					bounded = true
 				}
 			}
-			if bounded {
+			if bounded || countingLoop(hdr, body) {
 				continue
 			}
 			nLoops++
